@@ -62,6 +62,8 @@ var insertClauses = []string{"CREATE (zz)", "CREATE UNIQUE (zz)", "MERGE (zz)", 
 	"SET zz += {a: 1}", "SET zz:L", "REMOVE zz.a", "REMOVE zz:L", "DELETE zz", "DETACH DELETE zz", "FOREACH (i IN [1] | SET zz.a = 1)", "CALL zz.p()",
 	"CALL zz.p() YIELD a", "CALL zz.p"}
 
+var shortestPanic string
+
 type verdict struct {
 	accepted  bool
 	err       string
@@ -145,6 +147,10 @@ func checkAccepted(run *core.Run, a artefact, m *cypher.RegularQuery) *core.Viol
 	var res translate.Result
 	var terr error
 	if p := core.Try(func() { res, terr = translate.Translate(context.Background(), m, mapper, nil, 1) }); p != nil {
+		if run.Get("translate_panics") == 0 || len(a.Text) < len(shortestPanic) {
+			shortestPanic = a.Text
+			run.Set("translate_panic_example(C05)", fmt.Sprintf("%q: %v", a.Text, p))
+		}
 		run.Add("translate_panics", 1)
 		return nil
 	}
@@ -322,7 +328,7 @@ func (s *explorer) insertions(base artefact, tree *cytext.RawTree) {
 }
 
 // resetEvery is the number of evaluations after which ANTLR's prediction caches are dropped (overlay accessor in cypher/parser).
-const resetEvery = 50000
+const resetEvery = 2000
 
 func main() {
 	run := core.Start("C09", "exploration")
